@@ -13,6 +13,7 @@ print(c[0] if c else '')")
   [ -z "$n" ] && continue
   mkdir -p regress/$P
   kind=$(python3 -c "import json;print(json.load(open('$path'))['case'].get('kind',''))")
+  if [ "$kind" = "demonstration" ]; then continue; fi
   if [ "$kind" = "history" ]; then
     VERIF_DIR=/verif harness/target/release/verif $P --minimize $path 2>/dev/null > /tmp/min.txt
     python3 -c "
